@@ -80,6 +80,9 @@ type richBias struct {
 	Expiry     int // percent
 	Conc       []int
 	PausesOnly bool
+	// RestartHeavy: scripts made of Stop/Restart/Pause/Resume cycles and jobs that take virtual time,
+	// so that the event loop of a previous run overlaps the next one
+	RestartHeavy bool
 }
 
 func drawRich(r *Rng, b richBias) richCfg {
@@ -135,7 +138,9 @@ func drawRich(r *Rng, b richBias) richCfg {
 		op := ctlOp{Delay: Pick(r, 0, 0, time.Microsecond, 30*time.Microsecond)}
 		switch state {
 		case "Running":
-			if b.PausesOnly {
+			if b.RestartHeavy {
+				op.Kind = Pick(r, "Restart", "Restart", "Stop", "Stop", "PauseAndWait", "Pause")
+			} else if b.PausesOnly {
 				op.Kind = Pick(r, "PauseAndWait", "Pause", "Stop", "WaitAndStop", "PauseAndWait", "Stop")
 			} else {
 				op.Kind = Pick(r, "PauseAndWait", "Pause", "Stop", "WaitAndStop", "Restart", "TunePool", "TunePool", "WaitUntilFinished")
